@@ -102,6 +102,17 @@ def summaries(prog, max_reads):
     def prepare(ex, st, fn, argv):
         return [(st, Agg({0: argv[0], 1: argv[1]}, 'DoRead'))]
 
+    @reg(r'^DoRead::<.*>::with_limit$')
+    def with_limit(ex, st, fn, argv):
+        # input_buffer 0.5: Ok iff (bytes buffered and not yet consumed) + reserve <= limit, else Err(SizeLimit)
+        dr = argv[0]
+        b = deref(ex, st, dr.fields[0])
+        fits = z3.ULE(z3.ZeroExt(1, b.avail) + z3.ZeroExt(1, dr.fields[1].bv), z3.ZeroExt(1, argv[1].bv))
+        outs = []
+        for (s, c, ok) in ex.fork_on(st, fits, dr):
+            outs.append((s, mk_ok(c) if ok else mk_err(Agg({}, 'SizeLimit'))))
+        return outs
+
     @reg(r'^DoRead::<.*>::read_from::<')
     def do_read(ex, st, fn, argv):
         dr = argv[0]
